@@ -6,15 +6,15 @@ props = [json.loads(l) for l in open(os.path.join(V, "properties.jsonl"))]
 ids = [p["id"] for p in props]
 
 CLAIMS = {
- "C10": dict(cat="other", tech="finite-domain evaluation of the printer's and scanner's escape tables over all 128 characters x 2 modes (inverse bijection), set comparison of printer case labels vs tags the scanner can produce, literal/keyword/prefix agreement printer -> scanner/checker, per-case union-member discipline",
+ "C10": dict(cat="other", tech="finite-domain evaluation of the printer's and scanner's escape tables over all 128 characters x 2 modes (inverse bijection), set comparison of printer case labels vs tags the scanner can produce, literal/keyword/prefix agreement printer -> scanner/checker, per-case union-member discipline, time-tag extent agreement of scanner and checker on the printer's own spellings",
     text="Narrow claim (table agreement only): every character the printer escapes scans back to itself and vice versa in both quoting modes; the printer has a case for every tag and the scanner can produce every printed tag; reserved words and prefixes the printer emits are read back under the same tag by both readers, with the right truth value for true/false; inside the case of tag X printer, scanner and arg-val-math.c touch only X's union member. Numeric round trip, look-ahead, line breaking and range compression are not decided.",
     note="Trusted: clang AST, sa/fdeval.py.",
     ref="DESIGN.md 2 C10"),
- "C11": dict(cat="other", tech="sibling-recogniser agreement between the syntax checker and the scanner: first-character sets, ordered token-class tests of the default branches (differently spelled tests evaluated over ~3300 probe strings with a model of the sscanf directives they use), keyword->tag tables, and evaluation of the white-space/comment skipping statements of the four entry loops over separator probes",
+ "C11": dict(cat="other", tech="sibling-recogniser agreement between the syntax checker and the scanner: first-character sets, ordered token-class tests of the default branches (differently spelled tests evaluated over ~3300 probe strings with a model of the sscanf directives they use), keyword->tag tables, evaluation of the white-space/comment skipping statements of the four entry loops over separator probes, and evaluation of the scanner's and checker's time-tag branches over date probes (sscanf model with assignments): same extent, no unassigned local read",
     text="Narrow claim: the two hand-written recognisers dispatch on the same first characters, test the same token classes in the same order and agree on every probe string where a test is spelled differently (this is the rule that exposed the date test defect fixed here: \"0 0 -7\" was three integers for the checker and a time stamp for the scanner); they map the reserved words to the same tags; and every entry loop skips any run of white space and %-comments (several comments at one boundary included). Value denotation, ranges and canonicalisation are not decided.",
     note="Trusted: clang AST, sa/fdeval.py, the sscanf model and probe sets in sa/rules/recog.py (agreement is established on the probes only).",
     ref="DESIGN.md 2 C11"),
- "C04": dict(cat="other", tech="IR dominance and instruction-level path search in Ports::dispatch (d.port set / d.obj restored / d.loc truncated / NUL-terminated / matches counted), normalised-AST equality of the three type-matcher clones, post-dominance of refreshMagic in the table-building constructors, finite-domain comparison of run-time and build-time hash formulas",
+ "C04": dict(cat="other", tech="IR dominance and instruction-level path search in Ports::dispatch (d.port set / d.obj restored / d.loc truncated / NUL-terminated / matches counted), verdict-table agreement of the type-matcher copies (each copy evaluated on the AST over 5824 (pattern, type string) probes), post-dominance of refreshMagic in the table-building constructors, finite-domain comparison of run-time and build-time hash formulas",
     text="Protocol clauses only: each port callback runs with d.port set to its port, d.obj is restored after every callback, every path from a callback in the location branches to the next iteration or return cuts d.loc back to old_end and appended bytes are NUL-terminated before the callback; d.matches is incremented exactly for leaf ports and for default-handler calls; the three hand-written copies of the type-tag matcher (one used by the linear scan, one by the hashed lookup) are the same function; every constructor that fills the table ends in refreshMagic(); the hash computed at dispatch time is the formula the table was built with, and remap[t] is read only with t in range. Whether the perfect hash and the linear scan accept the same addresses for every table is not decided.",
     note="Trusted: clang AST/-O0 IR, sa/irlib.py, sa/rules/flow.py. Unwind edges are not followed.",
     ref="DESIGN.md 2 C04"),
@@ -34,7 +34,7 @@ CLAIMS = {
     text="Narrow structural claim: the dependency kinds the sorter reads are exactly the kinds the macros can declare (enabled by / depends / default depends), each used as the metadata lookup key, and dependency lists are split at the separator rDepends emits. Necessary for order independence: an unread kind is applied in file order. Path resolution, transitive edges and the topological sort are not decided.",
     note="Trusted: clang AST, witness/meta_matrix.cpp.",
     ref="DESIGN.md 2 C13"),
- "C19": dict(cat="other", tech="AST sentinel-discipline rule (fields whose none value is -1 never converted to bool), finite-domain enumeration of the conditions guarding learn-queue decrements, finite-domain evaluation of the setSlotSub clamp, OSC-format rule, metadata-key agreement with the range macros",
+ "C19": dict(cat="other", tech="AST sentinel-discipline rule (fields whose none value is -1 never converted to bool), finite-domain enumeration of the conditions guarding learn-queue decrements, finite-domain evaluation of the setSlotSub emit branches (mapped value -> emitted argument, helpers inlined), OSC-format rule, metadata-key agreement with the range macros",
     text="Narrow structural claim: the slot fields using -1 as `none` are discovered from the stores and must never be tested by truthiness; every decrement of a queue position / learn_queue_len must sit under conditions that, enumerated over positions {-1,1,2,3} per slot expression, cannot hold while the reference slot is -1 (the exact history class of the defect fixed here: clearing an idle slot while another waits); setSlotSub's clamp evaluated around the bounds is clamp(v,min,max), precedes the emit and only monotone functions follow; emit calls are type-correct; the metadata keys read are the ones rLinear/rLog/rLogWithLogmin emit. Does not decide linearity of the mapping or queue order over whole histories.",
     note="Trusted: clang AST, sa/fdeval.py, witness/meta_matrix.cpp. The sentinel convention is read off the current tree (>= 6 stores of -1).",
     ref="DESIGN.md 2 C19"),
@@ -54,11 +54,11 @@ CLAIMS = {
     text="Decides, for every byte buffer, the structural soundness conditions of rtosc_message_length / rtosc_valid_message_p: ring memory is read only through the bounds-checked deref(); each subscript in deref() is under its own bound test; every returned non-zero length was tested against the available bytes; a length decoded from the buffer enters position arithmetic only after an upper-bound comparison (otherwise 32-bit wrap defeats the final bound - the defect class found and fixed here); rtosc_valid_message_p reads msg bytes only under a strict counter<len (or len!=0 for msg[0]) edge; and the validator accounts per tag for exactly what arg_size/extract_arg consume. It does not decide agreement with an independent decoder on values.",
     note="Trusted: clang AST/-O0 IR, sa/rules/taint.py (flow-insensitive on stack slots, arithmetic does not propagate taint), sa/irlib.py dominators. R07.5 is a necessary condition only.",
     ref="DESIGN.md 2 C07"),
- "C08": dict(cat="other", tech="IR guard dominance for bundle writers, big-endian sequence check, finite-domain evaluation of the stride expressions of writer/sizer/four walkers over element sizes 4..32, magic/offset agreement between writer and readers",
+ "C08": dict(cat="other", tech="IR guard dominance for bundle writers, big-endian sequence check, finite-domain evaluation of the writer/sizer strides over element sizes 4..32, evaluation of the four bundle readers on probe bundles laid out as the writer does (count, offsets, sizes, total length), magic/offset agreement between writer and readers",
     text="Decides structural conditions of lossless bundling for all element sequences: rtosc_bundle and append_bundle write only under an exact capacity guard whose compared amount equals the amount written; length and time-tag codecs are big-endian; writer, size pre-computation and the four independent walkers step by size+4 for every size; magic bytes and header offsets (0/8/16) agree between writer and every reader; prefix value, copy length and advance are one variable measured from the copied message.",
     note="Trusted: clang AST/-O0 IR, sa/fdeval.py, sa/rules/guard.py. Element sizes are assumed to be multiples of 4. Byte identity of nested elements is not decided.",
     ref="DESIGN.md 2 C08"),
- "C01": dict(cat="other", tech="AST table extraction + finite-domain evaluation: per-tag payload tables of 7 sibling codec functions vs the OSC 1.0 table, big-endian shift sequences, alignment-step tables over pos mod 4, cursor-offset discipline, va_arg/union-member agreement",
+ "C01": dict(cat="other", tech="AST table extraction + finite-domain evaluation: per-tag payload tables of 7 sibling codec functions vs the OSC 1.0 table, big-endian shift sequences, alignment-step tables over pos mod 4, cursor-offset discipline, va_arg/union-member agreement, argument-slot discipline of rtosc_avmessage against rtosc_amessage's over all tag sequences up to length 3",
     text="Decides structural necessary conditions of the wire format for every input: each of the seven hand-written functions that carry a private copy of the type-tag table assigns every tag its OSC 1.0 payload class; every numeric emit/extract sequence is big-endian on consecutive bytes; every alignment step computes the table of its field kind (evaluated over pos mod 4, not matched textually); type-string loops classify the element they tested and skip exactly '[' and ']'; rtosc_v2args reads the promoted C type into the union member the writer reads; the wrappers share one decoder/forward buffers unchanged. It does not decide the bytes for particular values - that part of the property quantifies over run-time values.",
     note="Trusted: clang AST, sa/fdeval.py, idiom recognisers in sa/rules/codec.py (an unknown idiom is exit 2, not a pass), the OSC tag table in sa/props/C01.py.",
     ref="DESIGN.md 2 C01"),
